@@ -328,6 +328,89 @@ func runC10(rc *RunCtx) {
 			}
 		}
 	}
+	// arguments that name an existing entry under another spelling (another hex spelling of an enabled attester's key, a
+	// denom in another letter case, a 20-byte form of a padded token, a blank around it): whatever a handler makes of such
+	// an argument, it makes it for the role's holder only - every other submitter is refused and changes nothing
+	if rc.Shard == 3%rc.NShards {
+		e, err := StdEngine(rc, false, false, func(gs *ct.GenesisState, cfg *chain.Config) {
+			gs.PerMessageBurnLimitList = []ct.PerMessageBurnLimit{{Denom: "uusdc", Amount: sdkInt(500)}}
+			gs.TokenPairList = append(gs.TokenPairList, ct.TokenPair{RemoteDomain: 9, RemoteToken: Token(5), LocalToken: "uusdc"})
+		})
+		if err == nil {
+			s := e.M
+			var aliases []string
+			for _, id := range sortedStrings(s.Attesters) {
+				if b, ok := ref.ParseAttesterString(id); ok {
+					for _, k := range AttesterPool {
+						if string(k.Pub) == string(b) {
+							for st := 0; st < 4; st++ {
+								if sp := k.Spell(st); sp != id {
+									aliases = append(aliases, sp)
+								}
+							}
+						}
+					}
+					bare := strings.TrimPrefix(strings.TrimPrefix(id, "0x"), "0X")
+					aliases = append(aliases, "0x0"+bare, "00"+bare, " "+id, id+" ", "0x"+strings.ToUpper(bare[:64])+bare[64:])
+				}
+			}
+			var reqs []func(f string) sdk.Msg
+			for _, a := range aliases {
+				a := a
+				reqs = append(reqs, func(f string) sdk.Msg { return &ct.MsgDisableAttester{From: f, Attester: a} },
+					func(f string) sdk.Msg { return &ct.MsgEnableAttester{From: f, Attester: a} })
+			}
+			for _, tok := range []string{"UUSDC", "uUsdc", " uusdc", "uusdc ", "Uusdc"} {
+				tok := tok
+				reqs = append(reqs,
+					func(f string) sdk.Msg {
+						return &ct.MsgSetMaxBurnAmountPerMessage{From: f, LocalToken: tok, Amount: mkInt(big.NewInt(7))}
+					},
+					func(f string) sdk.Msg {
+						return &ct.MsgUnlinkTokenPair{From: f, RemoteDomain: 0, RemoteToken: Token(0), LocalToken: tok}
+					},
+					func(f string) sdk.Msg {
+						return &ct.MsgLinkTokenPair{From: f, RemoteDomain: 0, RemoteToken: Token(0), LocalToken: tok}
+					})
+			}
+			reqs = append(reqs,
+				func(f string) sdk.Msg {
+					return &ct.MsgUnlinkTokenPair{From: f, RemoteDomain: 9, RemoteToken: Token(5)[12:], LocalToken: "uusdc"}
+				},
+				func(f string) sdk.Msg {
+					return &ct.MsgLinkTokenPair{From: f, RemoteDomain: 9, RemoteToken: Token(5)[12:], LocalToken: "uusdc"}
+				},
+				func(f string) sdk.Msg { return &ct.MsgUpdateOwner{From: f, NewOwner: strings.ToUpper(s.Owner)} },
+				func(f string) sdk.Msg { return &ct.MsgUpdateAttesterManager{From: f, NewAttesterManager: strings.ToUpper(s.AM)} },
+				func(f string) sdk.Msg { return &ct.MsgUpdatePauser{From: f, NewPauser: strings.ToUpper(s.Pauser)} },
+				func(f string) sdk.Msg { return &ct.MsgUpdateTokenController{From: f, NewTokenController: strings.ToUpper(s.TC)} })
+			roleOf := func(m sdk.Msg) string {
+				switch m.(type) {
+				case *ct.MsgDisableAttester, *ct.MsgEnableAttester:
+					return s.AM
+				case *ct.MsgSetMaxBurnAmountPerMessage, *ct.MsgUnlinkTokenPair, *ct.MsgLinkTokenPair:
+					return s.TC
+				}
+				return s.Owner
+			}
+			for _, mk := range reqs {
+				for fi, from := range []string{S, Acct(OtherIx), s.Owner, s.AM, s.Pauser, s.TC, Nobody()} {
+					m := mk(from)
+					if from == roleOf(m) {
+						continue // what the holder's request does is judged by the model in the owning checks
+					}
+					tx := Tx{Msgs: msgs1(m), Note: "C10 request naming an existing entry under another spelling, by an account without the role"}
+					r := e.Exec(tx)
+					rc.Cov.Assert("C10.other-spellings-need-the-role")
+					rc.Cov.Cell("C10_other_spellings", fmt.Sprintf("%s/submitter%d/%s", msgKind(m), fi, okWord(r.OK)))
+					if r.OK {
+						e.viol([]string{"C10"}, "authorisation-oracle", "C10:"+msgKind(m)+":other-spelling:non-holder:ok",
+							msgKind(m)+" succeeded for an account that does not hold the role", e.caseOf(&tx, ""))
+					}
+				}
+			}
+		}
+	}
 	// many rotations of one role slot: after each, the new holder is served and the previous one refused
 	for slot := 0; slot < 4; slot++ {
 		if slot%rc.NShards != rc.Shard {
